@@ -460,6 +460,20 @@ pub fn walk(
                     );
                 }
             }
+            // "every route to the same position yields the same key": the position the game has
+            // reached, as replayed move by move, as generated, and as loaded from its FEN
+            acc.evaluations += 1;
+            let k_txt = txt_res.as_ref().ok().map(|_| txt.zobrist_key);
+            let k_gen = next_gen.as_ref().map(|g| g.zobrist_key);
+            let k_fen = fresh_next.zobrist_key;
+            if k_txt.map(|k| k != k_fen).unwrap_or(false) || k_gen.map(|k| k != k_fen).unwrap_or(false) {
+                acc.violation(
+                    format!("C05|route|{}|{}", np.to_fen(), m),
+                    format!("{} (reached from {} by [{}]): the three routes do not agree on its key - replayed move list {}, generated successor {}, loaded from FEN {:016x}", np.to_fen(), start_fen, o_txt2.path(),
+                        k_txt.map(|k| format!("{:016x}", k)).unwrap_or_else(|| "-".into()), k_gen.map(|k| format!("{:016x}", k)).unwrap_or_else(|| "-".into()), k_fen),
+                    o_txt2.case(prop),
+                );
+            }
         }
         // Follow the engine's own objects as long as they hold the right position and key;
         // otherwise (already reported by the property concerned) resynchronise from a fresh load
@@ -611,7 +625,7 @@ pub fn rule_text(prop: Prop) -> String {
         Prop::C01 => format!("evaluation = one generated successor compared against the oracle's legal move set; {}", common),
         Prop::C02 => format!("evaluation = one generated successor compared field by field (64 squares, side, rights, ep target, king squares, ring, descriptor) with oracle.apply; {}", common),
         Prop::C04 => format!("evaluation = one text-applied ply (fields + hash vs oracle, vs generator successor) or one generated move printed by the engine and replayed; {}", common),
-        Prop::C05 => format!("evaluation = one key comparison (board key vs key recomputed from the board's own fields via the hasher's getters) for FEN loader, text applier, generator (both modes), plus transposition pairs and single-component flips; {}", common),
+        Prop::C05 => format!("evaluation = one key comparison (board key vs key recomputed from the board's own fields via the hasher's getters) for FEN loader, text applier, generator (both modes), agreement of the three routes on the key of every position a walk reaches, plus transposition pairs and single-component flips; {}", common),
         Prop::C06 => format!("evaluation = one is_check answer (one colour, one placement) compared with oracle.attacked; placements: complete family king x attacker x blocker-on-ray, all king pairs, random placements (legal or not), walk positions on generator/text boards; {}", common),
         Prop::C13 => format!("evaluation = one capture-only successor compared with the oracle (set membership + fields), along chains that follow the engine's own capture-only successors (full breadth 2 levels, then one random branch to depth 10); {}", common),
     }
